@@ -22,6 +22,7 @@ var hostRedirects = map[string]string{
 	"(*os.File).Sync": "FileSync", "(*os.File).Truncate": "FileTruncate", "(*os.File).ReadDir": "FileReadDir",
 	"(*os.File).Readdir": "FileReaddir", "(*os.File).WriteTo": "FileWriteTo", "(*os.File).ReadFrom": "FileReadFrom",
 	"golang.org/x/sys/unix.Stat": "UnixStat", "golang.org/x/sys/unix.Lstat": "UnixLstat",
+	"github.com/djherbis/times.Stat": "TimesStat", "github.com/djherbis/times.Lstat": "TimesLstat",
 	"github.com/pkg/xattr.List": "XattrList", "github.com/pkg/xattr.LList": "XattrList",
 	"github.com/pkg/xattr.Get": "XattrGet", "github.com/pkg/xattr.LGet": "XattrGet",
 }
